@@ -124,6 +124,10 @@ class Observer:
                 return
             k = path[-1][1] + (1 if a["where"] == "after" else 0)
             path = path[:-1]
+            import exo.API_cursors as C
+            from stream import locate
+            if not path or not isinstance(locate(p, path), C.ForCursor):
+                return  # fission of an `if` is not modelled (search only)
         name = op
         if op == "divide_loop":
             name = "divide_loop_perfect" if a["perfect"] else "divide_loop_" + a["tail"]
